@@ -332,7 +332,7 @@ end Toy
     ev    : `<i>L` | `<i>S<code>:<0|1>` | `<i>C<hex>:<0|1>` | `<i>E<wtrp bits>` | `<i>N` | `<i>D`   (i = task digit)
     d:1   : additionally insert a `drop` for task 0 at every position and require a clean outcome
   answer  : `cache:<node'> tmp:<n> r:<res;res…> req:<log;log…> second:<res> drops:<clean|dirty|->`
-    node' : as above with `file:<fnv64>:<len>`; res: `hit:<url|->` `parse-error` `ok:<url>` `notfound` `dropped` `pending`
+    node' : as above with `file:<fnv64>:<len>`; res: `ok:<url|->` `parse-error` `notfound` `dropped` `pending`
 -/
 
 open Proto
@@ -370,7 +370,7 @@ def parseBool (s : String) : Option Bool :=
   | "1" => some true
   | _ => none
 
-def parseEv (s : String) : Option (Nat × Ev) :=
+def parseEv1 (s : String) : Option (Nat × Ev) :=
   match s.toList with
   | i :: k :: rest =>
     if !i.isDigit then none else
@@ -401,6 +401,18 @@ def parseEv (s : String) : Option (Nat × Ev) :=
     | _ => none
   | _ => none
 
+/-- an event token, optionally tagged `@k`: it belongs to the response of server `k` and reaches the
+    client only while the call is talking to that server (a response the client has abandoned is
+    never read any further) -/
+def parseEv (s : String) : Option (Nat × Option Nat × Ev) :=
+  match s.splitOn "@" with
+  | [e] => (parseEv1 e).map fun (i, ev) => (i, none, ev)
+  | [e, k] => do
+    let (i, ev) ← parseEv1 e
+    let k ← k.toNat?
+    pure (i, some k, ev)
+  | _ => none
+
 def parseUrls (s : String) : Option (List Url) :=
   if s == "none" then some [] else (s.splitOn ";").mapM unhex
 
@@ -409,7 +421,7 @@ def renderResult (r : Result) : String :=
   | .localFile b =>
     match Toy.parse b with
     | none => "parse-error"
-    | some t => "hit:" ++ (match t.url with | none => "-" | some u => showBytes u)
+    | some t => "ok:" ++ (match t.url with | none => "-" | some u => showBytes u)
   | .downloaded _ u => "ok:" ++ showBytes u
   | .notFound => "notfound"
 
@@ -430,12 +442,32 @@ def isDropped (ph : Phase Toy.model) : Bool :=
   | .dropped => true
   | _ => false
 
+/-- index of the server the call is talking to -/
+def curIndex (req : Req) (ph : Phase Toy.model) : Option Nat :=
+  match ph with
+  | .awaitStatus _ rest => some (req.urls.length - rest.length - 1)
+  | .streaming _ rest _ _ _ => some (req.urls.length - rest.length - 1)
+  | _ => none
+
+/-- deliver a (possibly tagged) event -/
+def deliver (w : World Toy.model) (i : Nat) (tag : Option Nat) (e : Ev) : World Toy.model :=
+  match tag with
+  | none => w.step i e
+  | some k =>
+    match w.tasks[i]? with
+    | none => w
+    | some (req, ph) => if curIndex req ph == some k then w.step i e else w
+
+def runTagged (w : World Toy.model) : List (Nat × Option Nat × Ev) → World Toy.model
+  | [] => w
+  | (i, tag, e) :: es => runTagged (deliver w i tag e) es
+
 /-- run the world event by event, logging for each task the servers it sends a request to -/
 def runLogged (w : World Toy.model) (logs : List (List Nat)) :
-    List (Nat × Ev) → World Toy.model × List (List Nat)
+    List (Nat × Option Nat × Ev) → World Toy.model × List (List Nat)
   | [] => (w, logs)
-  | (i, e) :: es =>
-    let w' := w.step i e
+  | (i, tag, e) :: es =>
+    let w' := deliver w i tag e
     let logs' :=
       match w.tasks[i]?, w'.tasks[i]? with
       | some (_, before), some (req, after) =>
@@ -455,9 +487,9 @@ def secondLookup (c : Cache) (p : Path) : String :=
   let r := step (P := Toy.model) c ⟨p, none, []⟩ .start .lookup
   renderPhase r.2
 
-def dropsClean (w0 : World Toy.model) (p : Path) (evs : List (Nat × Ev)) : Bool :=
+def dropsClean (w0 : World Toy.model) (p : Path) (evs : List (Nat × Option Nat × Ev)) : Bool :=
   (List.range (evs.length + 1)).all fun k =>
-    let wk := w0.run (evs.take k)
+    let wk := runTagged w0 (evs.take k)
     match wk.tasks[0]? with
     | none => false
     | some (_, ph) =>
@@ -469,7 +501,7 @@ def dropsClean (w0 : World Toy.model) (p : Path) (evs : List (Nat × Ev)) : Bool
         wd.liveTemps.isEmpty && (Node.render (wd.cache p) == Node.render (w0.cache p)) &&
           ((wd.tasks[0]?).any fun t => isDropped t.2) &&
           -- and nothing that follows changes that
-          (let we := wd.run (evs.drop k)
+          (let we := runTagged wd (evs.drop k)
            we.liveTemps.isEmpty && Node.render (we.cache p) == Node.render (w0.cache p))
 
 def field (key : String) (s : String) : Option String :=
